@@ -251,7 +251,7 @@ theorem recvLoop_skip {α : Type} (hc : Conforming dev view lim plan ms) (p : Pr
           recvLoop dev p scdAs ackKind id retry s' ∧
         s'.h = s.h ∧ (view s'.d).mem = (view s.d).mem ∧ (view s'.d).queue = rest ∧
         (view s'.d).txn = (view s.d).txn ∧
-        s'.logRev = (staleEvents s.h.bufLen s.h.cfg.timeoutMs stale).reverse ++ s.logRev := by
+        s'.logRev = (staleEvents s.h.bufLen s.h.cfg.xfer stale).reverse ++ s.logRev := by
   intro stale
   induction stale with
   | nil =>
@@ -267,7 +267,7 @@ theorem recvLoop_skip {α : Type} (hc : Conforming dev view lim plan ms) (p : Pr
     simp only at h2 hm hq' ht
     subst h2
     obtain ⟨s', hs', hh, hmem, hqq, htx, hlog⟩ :=
-      ih retry ((({ s with d := d } : St σ)).push (.recv s.h.bufLen s.h.cfg.timeoutMs (.ok pkt)))
+      ih retry ((({ s with d := d } : St σ)).push (.recv s.h.bufLen s.h.cfg.xfer (.ok pkt)))
         (fun x hx => hst x (List.mem_cons_of_mem _ hx)) (by simpa [St.push] using hq')
     refine ⟨s', ?_, by simpa [St.push] using hh, by simpa [St.push, hm] using hmem, hqq,
       by simpa [St.push, ht] using htx, ?_⟩
@@ -293,7 +293,7 @@ theorem recvLoop_answer {α : Type} (hc : Conforming dev view lim plan ms) (p : 
         s'.h = s.h ∧
         (view s'.d).mem = (view s.d).mem ∧ (view s'.d).queue = [] ∧
         (view s'.d).txn = (view s.d).txn ∧
-        s'.logRev = (recvEvents s.h.bufLen s.h.cfg.timeoutMs id ms
+        s'.logRev = (recvEvents s.h.bufLen s.h.cfg.xfer id ms
           (encodeAck STATUS_SUCCESS kindId id scd) k).reverse ++ s.logRev := by
   intro k
   induction k with
@@ -308,7 +308,7 @@ theorem recvLoop_answer {α : Type} (hc : Conforming dev view lim plan ms) (p : 
     simp only at h2 hm hq' ht
     subst h2
     have hparse := parse_encodeAck p kindId id scd ackKind hk hid hl
-    refine ⟨⟨s.h, d, .recv s.h.bufLen s.h.cfg.timeoutMs
+    refine ⟨⟨s.h, d, .recv s.h.bufLen s.h.cfg.xfer
       (.ok (encodeAck STATUS_SUCCESS kindId id scd)) :: s.logRev⟩, ?_, ?_⟩
     · simp only [recvLoop, hrecv, St.push, encodeAck_length, hparse, verifyAck]
       rw [if_neg (by omega)]
@@ -329,7 +329,7 @@ theorem recvLoop_answer {α : Type} (hc : Conforming dev view lim plan ms) (p : 
       (by simp)
     obtain ⟨s', hs', hh, hmem, hqq, htx, hlog⟩ :=
       ih r (((({ s with d := d } : St σ)).push
-          (.recv s.h.bufLen s.h.cfg.timeoutMs (.ok (pendingAck id ms)))).push (.sleep ms))
+          (.recv s.h.bufLen s.h.cfg.xfer (.ok (pendingAck id ms)))).push (.sleep ms))
         (by omega) hb16 hbl (by simpa [St.push, answer] using hq')
     refine ⟨s', ?_, ?_⟩
     · simp only [recvLoop, hrecv, St.push, pendingAck, encodeAck_length, hparse, verifyAck,
@@ -377,7 +377,7 @@ theorem sendCmd_conforming {α : Type} (hc : Conforming dev view lim plan ms) (p
       s'.h = { s.h with nextReqId := (s.h.nextReqId + 1) % 2 ^ 16,
                         bufLen := max s.h.bufLen (max c.cmdLen c.maximumAckLen) } ∧
       (view s'.d).mem = mem' ∧ (view s'.d).queue = [] ∧ (view s'.d).txn = (view s.d).txn + 1 ∧
-      s'.logRev = (txnEvents (max s.h.bufLen (max c.cmdLen c.maximumAckLen)) s.h.cfg.timeoutMs
+      s'.logRev = (txnEvents (max s.h.bufLen (max c.cmdLen c.maximumAckLen)) s.h.cfg.xfer
         (c.serialize s.h.nextReqId) s.h.nextReqId ms stale
         (encodeAck STATUS_SUCCESS kindId s.h.nextReqId scd) k).reverse ++ s.logRev := by
   obtain ⟨hs2, hsm, hsq, hst⟩ := hsend
@@ -392,7 +392,7 @@ theorem sendCmd_conforming {α : Type} (hc : Conforming dev view lim plan ms) (p
   -- the state in which the receive loop starts
   let h0 : Handle := ⟨(s.h.nextReqId + 1) % 2 ^ 16, s.h.cfg,
     max s.h.bufLen (max c.cmdLen c.maximumAckLen), s.h.opened, s.h.abrm⟩
-  let s0 : St σ := ⟨h0, d, .send (c.serialize s.h.nextReqId) s.h.cfg.timeoutMs none :: s.logRev⟩
+  let s0 : St σ := ⟨h0, d, .send (c.serialize s.h.nextReqId) s.h.cfg.xfer none :: s.logRev⟩
   obtain ⟨s1, hs1, hh1, hm1, hq1, ht1, hl1⟩ :=
     recvLoop_skip hc p scdAs (ackKindOf c) s.h.nextReqId
       (answer k s.h.nextReqId ms (encodeAck STATUS_SUCCESS kindId s.h.nextReqId scd)) stale
@@ -428,7 +428,7 @@ theorem sendCmd_read (hc : Conforming dev view lim plan ms) (p : Profile) (s : S
                         bufLen := max s.h.bufLen (max 24 (12 + max n 4)) } ∧
       (view s'.d).mem = (view s.d).mem ∧ (view s'.d).queue = [] ∧
       (view s'.d).txn = (view s.d).txn + 1 ∧
-      s'.logRev = (txnEvents (max s.h.bufLen (max 24 (12 + max n 4))) s.h.cfg.timeoutMs
+      s'.logRev = (txnEvents (max s.h.bufLen (max 24 (12 + max n 4))) s.h.cfg.xfer
         ((Cmd.Cmd.readMem ⟨a, n⟩).serialize s.h.nextReqId) s.h.nextReqId ms stale
         (readAck s.h.nextReqId (readRange (view s.d).mem a n)) (plan (view s.d).txn)).reverse
         ++ s.logRev := by
@@ -468,7 +468,7 @@ theorem sendCmd_write (hc : Conforming dev view lim plan ms) (p : Profile) (s : 
                         bufLen := max s.h.bufLen (max (20 + w.data.length) 16) } ∧
       (view s'.d).mem = writeRange (view s.d).mem w.address w.data ∧ (view s'.d).queue = [] ∧
       (view s'.d).txn = (view s.d).txn + 1 ∧
-      s'.logRev = (txnEvents (max s.h.bufLen (max (20 + w.data.length) 16)) s.h.cfg.timeoutMs
+      s'.logRev = (txnEvents (max s.h.bufLen (max (20 + w.data.length) 16)) s.h.cfg.xfer
         ((Cmd.Cmd.writeMem w).serialize s.h.nextReqId) s.h.nextReqId ms stale
         (writeAck s.h.nextReqId w.data.length) (plan (view s.d).txn)).reverse ++ s.logRev := by
   have hcons : C09.Constructible p (.writeMem w) := .writeMem _ hw
